@@ -278,4 +278,15 @@ def hbOrder : List HbStep := [.setMax, .register]
 def assignAfter (order : List HbStep) (hb : Heartbeat) (s : MSt) (k vid count : Nat) : Option (Nat × MSt) :=
   assign ((order.take k).foldl (hbStep hb) s) vid count
 
+/-- every grant `(vid, key)` of a one-key assign on a volume of the heartbeat that can run before, between or
+    after the steps of the heartbeat (k = 0 … number of steps), each from the same pre-state — what the client
+    goroutines of the harness op `hbrace` sample from the real handler -/
+def hbGrants (order : List HbStep) (hb : Heartbeat) (s : MSt) : List (Nat × Nat) :=
+  (List.range (order.length + 1)).flatMap fun k =>
+    hb.vols.filterMap fun vid => (assignAfter order hb s k vid 1).map fun r => (vid, r.1)
+
+/-- how many of them carry a key that is not above the heartbeat's max key (the `below` output of `hbrace`) -/
+def hbBelow (order : List HbStep) (hb : Heartbeat) (s : MSt) : Nat :=
+  ((hbGrants order hb s).filter fun g => decide (g.2 ≤ hb.maxFileKey)).length
+
 end SwV.Model.C13
